@@ -101,11 +101,12 @@ Definition first_is (v : bytes) (c : byte) : bool :=
   match v with b :: _ => beq b c | [] => false end.
 
 (* class character documented; function names have >= 2 bytes; comments are
-   non-empty, and a comment that starts with '/' has >= 2 bytes *)
+   non-empty, and a comment that does not start with '#' (that is: `--...` or
+   `/*...`) has >= 2 bytes *)
 Definition class_ok (c : byte) (n : Z) (v : bytes) : bool :=
   is_class c
   && (negb (beq c b_sqli_token_type_function) || (2 <=? n))
-  && (negb (beq c b_sqli_token_type_comment) || ((1 <=? n) && (negb (first_is v x2f) || (2 <=? n)))).
+  && (negb (beq c b_sqli_token_type_comment) || ((1 <=? n) && (first_is v x23 || (2 <=? n)))).
 
 Definition tok_at (inp : bytes) (lo hi : Z) (t : token) : Prop :=
   lo <= t_pos t /\ 0 <= t_len t /\ t_pos t + t_len t <= hi /\ t_len t < c_token_size /\
